@@ -262,6 +262,15 @@ def r04c(ctx):
         if clamped:
             fc = edges_where(a, lambda op, l, r: op == 'Eq' and is_cur(l) and flow.mentions(r, is_max))
     ctx.check(bool(fc), 'R04c', NEXT, 'forced cut', '-', 'a forced cut is decided on (advance + cur_chunk_len) >= maximum_chunk')
+    # The same rules path by path (seeded change C04d: the window widened by one byte and the clamp moved into the
+    # no-match branch keep every syntactic anchor in place).  Where every path could be evaluated the verdict counts;
+    # where the evaluator met something it does not understand it is inconclusive and the syntactic verdict stands.
+    okp, r = ctx.pathwise()
+    conclusive = r.npaths >= 4 and not [i for i in r.issues if i[0] == 'unknown'] and not any('cannot be evaluated' in m for (_, m) in r.spec_issues)
+    ctx._c.check(okp or not conclusive, 'R04c', NEXT, 'path by path', '-',
+                 ('on all %d paths every advance of the open-chunk length is the bounded skip or the scan advance, the search window is data[consumed .. min(len, consumed + maximum - open chunk)], and the maximum is enforced on match and no-match paths alike' % r.npaths)
+                 if okp else 'path-wise evaluation inconclusive (syntactic verdict stands)',
+                 'path by path: %s' % '; '.join(sorted({m for (_, m) in r.spec_issues}))[:420])
 
 
 def length_tracking(ctx, rid):
